@@ -180,3 +180,26 @@ func Sequences(k, maxLen int, f func(seq []int)) {
 	}
 	rec()
 }
+
+// LongFills returns strings around the sizes of common fixed buffers (4 KiB, 64 KiB) and one of 1 MiB,
+// made of the given byte.
+func LongFills(c byte) []string {
+	var out []string
+	for _, n := range []int{255, 256, 257, 4095, 4096, 4097, 65535, 65536, 65537, 1 << 20} {
+		b := make([]byte, n)
+		for i := range b {
+			b[i] = c
+		}
+		out = append(out, string(b))
+	}
+	return out
+}
+
+// ByteFills returns all 256 single-byte strings.
+func ByteFills() []string {
+	out := make([]string, 256)
+	for b := 0; b < 256; b++ {
+		out[b] = string([]byte{byte(b)})
+	}
+	return out
+}
